@@ -505,6 +505,12 @@ def gen_trees(seed, count, maxdepth):
                  ("rule", 3, ("choice", [("rule", 1, ("str", b"ab")), ("rule", 2, ("look", True, ("seq", [("charby", "any"), ("charby", "any")])))])),
                  ("choice", [("rule", 1, ("seq", [("str", b"a"), ("str", b"b")])), ("rule", 2, ("seq", [("look", True, ("str", b"ac")), ("skip", 2), ("opt", ("str", b"d"))]))]),
                  ("seq", [("opt", ("rule", 1, ("str", b"x"))), ("rule", 2, ("seq", [("look", False, ("str", b"y")), ("look", True, ("skip", 2)), ("skip", 1)]))])]
+    # look-ahead whose body is a bare and_then chain (no enclosing sequence restores it) and fails after having moved
+    stackish += [("seq", [("look", False, ("chain", [("str", b"a"), ("str", b"x")])), ("rule", 1, ("seq", [("str", b"a"), ("charby", "any")]))]),
+                 ("choice", [("look", True, ("chain", [("charby", "any"), ("str", b"x")])), ("rule", 1, ("str", b"ab"))]),
+                 ("seq", [("look", False, ("chain", [("skip_until", [b"z"]), ("str", b"z")])), ("charby", "any")]),
+                 ("seq", [("opt", ("look", True, ("chain", [("skip", 1), ("charby", "digit")]))), ("rule", 2, ("charby", "alpha"))]),
+                 ("look", False, ("chain", [("push", ("charby", "any")), ("str", b"q")]))]
     stackish += [("pop",), ("peek",),
                  ("rep", ("rule", 1, ("str", b"a"))), ("opt", ("rule", 1, ("seq", [("str", b"a"), ("str", b"b")]))),
                  ("look", False, ("rule", 1, ("str", b"a"))), ("rule", 1, ("seq", [("str", b"a"), ("rep", ("rule", 2, ("range", 0x61, 0x7a)))])),
